@@ -415,7 +415,10 @@ def growBuf (cap : Nat) : Nat := if cap = 0 then startBufSize else min (cap * 2)
 on what is held (if anything is held or the end was seen), consume what it says, hand a token to the switch of
 `readMoves`; otherwise stop at the end of the input, fail with `ErrTooLong` when the buffer is full at its maximal
 size, else make room (shift or double the buffer) and read — `chunk i` bytes if that many fit and are there, at
-least one — or learn that the input has ended. -/
+least one — or learn that the input has ended.
+Not modelled: a reader that returns data together with `io.EOF` in one call, or no data without error
+(`os.File`, `bytes.Reader`, `strings.Reader` behind the `bufio.Reader` of `ParsePTN` do neither); `splitMoves` never
+returns an error, a negative or too large advance, or an empty token, so those branches of `Scan` are dead. -/
 def readMovesScanner (env : Env) (chunk : Nat → Nat) : Nat → Nat → ScanState → R (List Op)
   | 0, _, _ => .error (.hang "Scan")
   | fuel+1, i, s =>
